@@ -10,14 +10,16 @@
      go-compact-time v1.8.3        DecodeDate/Time/TimestampWithBuffer, fillSlice, decodeTimezone
      /repo/cte/decoder.go          Decode: io.Copy of the whole input, then the parser
      /repo/ce/decoder.go, api.go   universal entry points: bufio.NewReader + Peek(1)
-   written from the code as it is, defects included:
-     - every one-byte read ignores the byte count: a (0, nil) read leaves the
-       previous content of buffer[0] in place and that stale byte is used;
-     - every one-byte read and every fill loop treats a non-nil error as
-       fatal (or as end of document in ReadTypeOrEOF) even when the same call
-       delivered data, so the io.Reader-legal response (n>0, io.EOF) loses data;
-     - inside a multi-byte ULEB128 a (0, nil) read makes the library return
-       the value 0 with no error.
+   written from the code as it is (after e4074d6):
+     - every read of the decoder and of the three external field decoders goes
+       through Reader.Read, which retries (0, nil) reads, reports an error that
+       arrived together with data on the NEXT call (pendingErr), keeps reporting
+       it from then on, and accounts the bytes it hands out against
+       MaxDocumentSizeBytes;
+     - so the callers only ever see (n>0, nil) or (0, io.EOF); the callers'
+       own handling (byte count ignored by the one-byte reads, ULEB128 returning
+       0 on an empty read, any error fatal in the fill loops) is modelled as it
+       is written, it just cannot be reached with an awkward response any more.
 
    A reader is a SCRIPT: the list of responses it will give.  A response is
    (bytes, eof): the bytes it delivers and whether io.EOF accompanies them.
@@ -132,6 +134,7 @@ Definition result := (list rtok * status)%type.
 
 Record rstate := mkst {
   s_src : src;
+  s_pend : bool;              (* Reader.pendingErr != nil (only io.EOF is modelled) *)
   s_b0 : byte;                (* Reader.buffer[0] *)
   s_cnt : N;                  (* Reader.bytesRead *)
   s_out : list rtok }.        (* events delivered so far, newest first *)
@@ -161,83 +164,88 @@ Notation "m ;;; k" := (bind m (fun _ => k))
 Open Scope rs_scope.
 
 Definition emit (t : rtok) : M unit :=
-  fun s => Ret tt (mkst (s_src s) (s_b0 s) (s_cnt s) (t :: s_out s)).
+  fun s => Ret tt (mkst (s_src s) (s_pend s) (s_b0 s) (s_cnt s) (t :: s_out s)).
 Definition ev (e : event) : M unit := emit (REv e).
 Definition get_b0 : M byte := fun s => Ret (s_b0 s) s.
-Definition get_fuel : M nat := fun s => Ret (src_fuel (s_src s)) s.
-
 Definition two64 : N := 18446744073709551616.
 
-(* One Read(buffer[:1]).  Returns (a byte arrived, io.EOF was returned).
-   buffer[0] changes only when a byte arrived. *)
-Definition rd1 : M (bool * bool) :=
-  fun s =>
-    let '(bs, e, src') := rd 1 (s_src s) in
-    match bs with
-    | x :: _ => Ret (true, e) (mkst src' x (s_cnt s) (s_out s))
-    | [] => Ret (false, e) (mkst src' (s_b0 s) (s_cnt s) (s_out s))
-    end.
+(* Enough steps for every loop of the decoder: each iteration consumes at
+   least one data byte or ends the loop (Reader.Read never returns (0, nil)). *)
+Definition dec_fuel (s : src) : nat := (length (src_data s) + 2)%nat.
+Definition get_fuel : M nat := fun s => Ret (dec_fuel (s_src s)) s.
+Definition set_b0 (x : byte) : M unit :=
+  fun s => Ret tt (mkst (s_src s) (s_pend s) x (s_cnt s) (s_out s)).
 
-(* The loop shared by readIntoBuffer and compact_time.fillSlice:
-     for len(dst) > 0 { n, err := Read(dst); if err != nil { fail }; dst = dst[n:] }
-   [at0] tells whether dst starts at buffer[0] (then buffer[0] is overwritten). *)
-Fixpoint fill_loop (fuel : nat) (need : N) (s : src) : option (option (bytes * src)) :=
+(* The retry loop of Reader.Read: read until data or an error arrives. *)
+Fixpoint skip_zeros (fuel : nat) (cap : N) (s : src) : option (bytes * bool * src) :=
   match fuel with
   | O => None
   | S f =>
-      let '(bs, e, s') := rd need s in
-      if e then Some None
-      else if need <=? lenN bs then Some (Some (bs, s'))
-      else match fill_loop f (need - lenN bs) s' with
-           | Some (Some (more, s'')) => Some (Some (bs ++ more, s''))
-           | r => r
-           end
+      let '(bs, e, s') := rd cap s in
+      match bs with
+      | _ :: _ => Some (bs, e, s')
+      | [] => if e then Some ([], true, s') else skip_zeros f cap s'
+      end
   end.
-
-Definition fill (at0 : bool) (need : N) : M bytes :=
-  fun s =>
-    if need =? 0 then Ret [] s
-    else match fill_loop (src_fuel (s_src s)) need (s_src s) with
-         | None => Stuck
-         | Some None => Fail s
-         | Some (Some (bs, src')) =>
-             Ret bs (mkst src' (if at0 then hd (s_b0 s) bs else s_b0 s) (s_cnt s) (s_out s))
-         end.
 
 Section Decoder.
   (* configuration.Rules.MaxDocumentSizeBytes *)
   Variable maxdoc : N.
 
-  Definition mark (n : N) : M unit :=
+  (* Reader.Read(p) with len(p) = cap >= 1.  Result: (bytes, io.EOF returned);
+     bytes <> [] implies no error.  bytesRead cannot wrap: it never exceeds
+     the number of bytes delivered. *)
+  Definition nrd (cap : N) : M (bytes * bool) :=
     fun s =>
-      let c := (s_cnt s + n) mod two64 in
-      let s' := mkst (s_src s) (s_b0 s) c (s_out s) in
-      if maxdoc <? c then Fail s' else Ret tt s'.
+      if s_pend s then Ret ([], true) s
+      else match skip_zeros (S (src_zeros (s_src s))) cap (s_src s) with
+           | None => Stuck
+           | Some ([], _, src') => Ret ([], true) (mkst src' true (s_b0 s) (s_cnt s) (s_out s))
+           | Some (bs, e, src') =>
+               let c := s_cnt s + lenN bs in
+               if maxdoc <? c then Fail (mkst src' e (s_b0 s) c (s_out s))
+               else Ret (bs, false) (mkst src' e (s_b0 s) c (s_out s))
+           end.
 
-  (* Reader.ReadUint8: byte count ignored, any error fatal, one byte accounted. *)
+  (* One Read(buffer[:1]).  Returns (a byte arrived, io.EOF was returned).
+     buffer[0] changes only when a byte arrived. *)
+  Definition rd1 : M (bool * bool) :=
+    r <- nrd 1 ;;
+    match fst r with
+    | x :: _ => set_b0 x ;;; ret (true, snd r)
+    | [] => ret (false, snd r)
+    end.
+
+  (* Reader.ReadUint8: byte count ignored, any error fatal. *)
   Definition read_u8 : M byte :=
-    r <- rd1 ;; if snd r then fail else mark 1 ;;; get_b0.
+    r <- rd1 ;; if snd r then fail else get_b0.
 
-  (* Reader.ReadTypeOrEOF: io.EOF (with or without data) ends the document. *)
+  (* Reader.ReadTypeOrEOF: io.EOF ends the document. *)
   Definition read_type_or_eof : M (option byte) :=
-    r <- rd1 ;; if snd r then ret None else mark 1 ;;; b <- get_b0 ;; ret (Some b).
+    r <- rd1 ;; if snd r then ret None else b <- get_b0 ;; ret (Some b).
 
-  (* A fill loop with its accounting.  readIntoBuffer accounts every partial
-     read; compact_time.fillSlice reads through Reader.Read, which accounts too.
-     Only the total is accounted here: the limit test after each partial read
-     fails exactly when the total does, and a loop that ends in an error fails
-     either way. *)
-  Definition fill_mark (at0 : bool) (n : N) : M bytes :=
-    bs <- fill at0 n ;; mark n ;;; ret bs.
+  (* The loop shared by readIntoBuffer and compact_time.fillSlice:
+       for len(dst) > 0 { n, err := Read(dst); if err != nil { fail }; dst = dst[n:] }
+     [at0] tells whether dst starts at buffer[0] (then buffer[0] is overwritten). *)
+  Fixpoint fill_loop (fuel : nat) (need : N) : M bytes :=
+    match fuel with
+    | O => stuck
+    | S f =>
+        r <- nrd need ;;
+        if snd r then fail
+        else if need <=? lenN (fst r) then ret (fst r)
+        else more <- fill_loop f (need - lenN (fst r)) ;; ret (fst r ++ more)
+    end.
+
+  Definition fill (at0 : bool) (need : N) : M bytes :=
+    if need =? 0 then ret []
+    else fuel <- get_fuel ;;
+         bs <- fill_loop fuel need ;;
+         (if at0 then match bs with x :: _ => set_b0 x | [] => ret tt end else ret tt) ;;;
+         ret bs.
 
   (* Reader.ReadBytes / readIntoBuffer *)
-  Definition read_bytes (n : N) : M bytes := fill_mark true n.
-
-  (* One Read(buffer[:1]) issued by an external decoder (go-uleb128,
-     go-compact-time) through Reader.Read: the bytes actually delivered are
-     accounted before the caller looks at the error. *)
-  Definition rd1x : M (bool * bool) :=
-    r <- rd1 ;; mark (if fst r then 1 else 0) ;;; ret r.
+  Definition read_bytes (n : N) : M bytes := fill true n.
 
   (* uleb128.DecodeWithByteBuffer(reader, buffer) with buffer[:1] = Reader.buffer[:1].
      Result: value, number of bytes counted, and whether asBigInt is non-nil
@@ -249,7 +257,7 @@ Section Decoder.
     match fuel with
     | O => stuck
     | S f =>
-        r <- rd1x ;;
+        r <- rd1 ;;
         if negb (fst r) then
           (* bytesRead == 0: return with the named results still zero and
              err = whatever Read returned *)
@@ -263,7 +271,7 @@ Section Decoder.
     end.
 
   Definition uleb : M ulebv :=
-    r <- rd1x ;;
+    r <- rd1 ;;
     if snd r then fail
     else b <- get_b0 ;;
          if b <? 128 then ret (mkU b 1)
@@ -343,26 +351,26 @@ Section Decoder.
     if m =? 0 then a else if m =? 1 then b else if m =? 2 then c else d.
 
   Definition read_timezone : M tzval :=
-    r <- rd1x ;;
+    r <- rd1 ;;
     if snd r then fail
     else
       h <- get_b0 ;;
       if N.testbit h 0 then
-        rest <- fill_mark false 3 ;;
+        rest <- fill false 3 ;;
         let v := le_decode (h :: rest) in
         ret (TzLatLong (sext 15 (bits v 1 15)) (sext 16 (bits v 16 16)))
       else
         let len := N.shiftr h 1 in
         if len =? 0 then
-          bs <- fill_mark true 2 ;;
+          bs <- fill true 2 ;;
           let raw := le_decode bs in
           let minutes := if N.testbit raw 11 then sext 16 (N.lor raw 0xf000) else Z.of_N (N.land raw 0xfff) in
           ret (if (minutes =? 0)%Z then TzUTC else TzOffset minutes)
         else
-          bs <- fill_mark true len ;; ret (TzNamed bs).
+          bs <- fill true len ;; ret (TzNamed bs).
 
   Definition read_date : M unit :=
-    bs <- fill_mark true 2 ;;
+    bs <- fill true 2 ;;
     let acc := le_decode bs in
     let day := bits acc 0 5 in
     let month := bits acc 5 4 in
@@ -376,13 +384,13 @@ Section Decoder.
     end.
 
   Definition read_time : M unit :=
-    r <- rd1x ;;
+    r <- rd1 ;;
     if snd r then fail
     else
       h <- get_b0 ;;
       let mag := bits h 1 2 in
       let base := sel4 mag 3 4 5 7 in
-      rest <- fill_mark false (base - 1) ;;
+      rest <- fill false (base - 1) ;;
       let acc := le_decode (h :: rest) in
       let sub := 10 * mag in
       let ns := bits acc 3 sub * sel4 mag 1 1000000 1000 1 in
@@ -396,13 +404,13 @@ Section Decoder.
       else tz <- read_timezone ;; emit (RTime (mkTime 1 0 0 0 hr mi sec ns tz)).
 
   Definition read_timestamp : M unit :=
-    r <- rd1x ;;
+    r <- rd1 ;;
     if snd r then fail
     else
       h <- get_b0 ;;
       let mag := bits h 1 2 in
       let base := sel4 mag 4 5 7 8 in
-      rest <- fill_mark false (base - 1) ;;
+      rest <- fill false (base - 1) ;;
       let acc := le_decode (h :: rest) in
       let sub := 10 * mag in
       let ns := bits acc 3 sub * sel4 mag 1 1000000 1000 1 in
@@ -565,7 +573,7 @@ Section Decoder.
 
   (* A fresh decoder (buffer zeroed, nothing read) on source [s]. *)
   Definition cbe_decode_src (s : src) : result :=
-    finish (decode_doc (src_fuel s) (mkst s 0 0 [])).
+    finish (decode_doc (dec_fuel s) (mkst s false 0 0 [])).
 
   (* NewCBEDecoder().Decode(reader) / UnmarshalCBE(reader) on a scripted reader *)
   Definition decode_stream (sc : script) : result := cbe_decode_src (Direct sc).
@@ -664,15 +672,6 @@ Definition script_wf (sc : script) : bool :=
 
 (* [sc] is a reader that delivers document [d]. *)
 Definition delivers (sc : script) (d : bytes) : Prop := script_wf sc = true /\ script_data sc = d.
-
-(* The responses every decoder in the library copes with: some bytes and no
-   error, optionally followed by one final (0, io.EOF). *)
-Fixpoint good_script (sc : script) : bool :=
-  match sc with
-  | [] => true
-  | [([], true)] => true
-  | (bs, e) :: rest => negb e && (match bs with [] => false | _ => true end) && good_script rest
-  end.
 
 Definition has_zero_read (sc : script) : bool := existsb is_zero_resp sc.
 Definition has_data_eof (sc : script) : bool :=
